@@ -381,18 +381,83 @@ theorem strip_nss (tail : WGap) (l : List (SNs × WGap)) :
       simp only [noCNss, renderNss, wgap_toks_append, strip_sns_toks]
       simp [WGap.toks]
 
+/-! ### the `@variables` section -/
+
+def SVarDecl.noC (d : SVarDecl) : SVarDecl :=
+  { d with g1 := d.g1.noC, g2 := d.g2.noC, value := strip d.value, g3 := d.g3.noC }
+
+def SVarBlock.noC (b : SVarBlock) : SVarBlock :=
+  { lead := b.lead.noC, items := b.items.map (fun p => (p.1.noC, p.2.noC)), last := b.last.map SVarDecl.noC }
+
+def SVar.noC : SVar → SVar
+  | .comment b => .comment b
+  | .unknown t => .unknown (strip t)
+  | .variables kw g0 blk => .variables kw g0.noC blk.noC
+
+def noCVars (tail : WGap) : List (SVar × WGap) → WGap × List (SVar × WGap)
+  | [] => (tail, [])
+  | (.comment _, w) :: rest => (w ++ (noCVars tail rest).1, (noCVars tail rest).2)
+  | (.unknown t, w) :: rest => ([], (SVar.noC (.unknown t), w ++ (noCVars tail rest).1) :: (noCVars tail rest).2)
+  | (.variables kw g0 blk, w) :: rest =>
+    ([], (SVar.noC (.variables kw g0 blk), w ++ (noCVars tail rest).1) :: (noCVars tail rest).2)
+
+theorem strip_svardecl (d : SVarDecl) : strip d.toks = d.noC.toks := by
+  simp only [SVarDecl.toks, SVarDecl.noC]
+  rw [strip_keep _ _ (by simp [identTok]), strip_append, strip_gap, strip_keep _ _ (by decide), strip_append,
+    strip_gap, strip_append, strip_gap]
+
+theorem strip_varItems (items : List (SVarDecl × Gap)) :
+    strip (renderVarItems items) = renderVarItems (items.map (fun p => (p.1.noC, p.2.noC))) := by
+  induction items with
+  | nil => rfl
+  | cons p rest ih =>
+    obtain ⟨d, g⟩ := p
+    simp only [renderVarItems, List.map_cons, strip_append, strip_svardecl]
+    rw [strip_keep _ _ (by decide), strip_append, strip_gap, ih]
+
+theorem strip_varBlock (b : SVarBlock) : strip b.toks = b.noC.toks := by
+  simp only [SVarBlock.toks, SVarBlock.noC, strip_append, strip_gap, strip_varItems]
+  cases b.last with
+  | none => rfl
+  | some d => simp [renderLastVar, strip_svardecl]
+
+theorem strip_svar_toks (kw : Mask) (g0 : Gap) (blk : SVarBlock) :
+    strip (SVar.variables kw g0 blk).toks = (SVar.noC (.variables kw g0 blk)).toks := by
+  simp only [SVar.toks, SVar.noC]
+  rw [strip_atTok _ _ _ _ (by decide), strip_append, strip_gap, strip_braces, strip_varBlock]
+
+theorem strip_vars (tail : WGap) (l : List (SVar × WGap)) :
+    strip (renderVars l) ++ WGap.toks tail = WGap.toks (noCVars tail l).1 ++ renderVars (noCVars tail l).2 := by
+  induction l with
+  | nil => simp [renderVars, noCVars, strip]
+  | cons p rest ih =>
+    obtain ⟨i, w⟩ := p
+    simp only [renderVars, strip_append, strip_wgap, List.append_assoc, ih]
+    cases i with
+    | comment b =>
+      simp only [SVar.toks, noCVars, wgap_toks_append, strip_commentTok]
+      simp
+    | unknown t =>
+      simp only [noCVars, renderVars, wgap_toks_append]
+      simp [SVar.toks, SVar.noC, WGap.toks]
+    | variables kw g0 blk =>
+      simp only [noCVars, renderVars, wgap_toks_append, strip_svar_toks]
+      simp [WGap.toks]
+
 /-- the spelled sheet the tokenizer shows the parser when comment parsing is off: every comment token is gone -/
 def SSheet.noC (s : SSheet) : SSheet :=
   let r := SRules.noC s.rules
-  let n := noCNss r.1 s.namespaces
+  let v := noCVars r.1 s.variables
+  let n := noCNss v.1 s.namespaces
   let i := noCImps n.1 s.imports
-  { charset := s.charset, lead := s.lead ++ i.1, imports := i.2, namespaces := n.2, rules := r.2 }
+  { charset := s.charset, lead := s.lead ++ i.1, imports := i.2, namespaces := n.2, variables := v.2, rules := r.2 }
 
 /-- **dropping the comment tokens of a rendered sheet gives the rendering of the sheet without comments** -/
 theorem strip_render (s : SSheet) : strip (render s) = render s.noC := by
   have h1 := strip_srules s.rules
-  have h2 := strip_nss (SRules.noC s.rules).1 s.namespaces
-  have h3 := strip_imps (noCNss (SRules.noC s.rules).1 s.namespaces).1 s.imports
+  have h0 := strip_vars (SRules.noC s.rules).1 s.variables
+  have h2 := strip_nss (noCVars (SRules.noC s.rules).1 s.variables).1 s.namespaces
+  have h3 := strip_imps (noCNss (noCVars (SRules.noC s.rules).1 s.variables).1 s.namespaces).1 s.imports
   have hc : strip (charsetPart s.charset) = charsetPart s.charset := by
     cases s.charset with
     | none => rfl
@@ -403,6 +468,8 @@ theorem strip_render (s : SSheet) : strip (render s) = render s.noC := by
   congr 1
   simp only [List.append_assoc]
   congr 1
+  rw [← List.append_assoc (strip (renderVars s.variables)), h0]
+  simp only [List.append_assoc]
   rw [← List.append_assoc (strip (renderNss s.namespaces)), h2, ← List.append_assoc (strip (renderImps s.imports))]
   simp only [List.append_assoc]
   rw [← List.append_assoc (strip (renderImps s.imports)), h3]
@@ -428,6 +495,7 @@ def eraseCRule : ARule → Option ARule
   | .import_ h mq n => some (.import_ h mq n)
   | .namespace_ p u => some (.namespace_ p u)
   | .charset e => some (.charset e)
+  | .variables vs => some (.variables vs)
   | .other k => some (.other k)
 /-- comment rules and comment items removed (and the comments inside unknown at-rules) -/
 def eraseCRules : List ARule → List ARule
@@ -696,10 +764,45 @@ theorem noCNss_erase (tail : WGap) (l : List (SNs × WGap)) :
       simp only [noCNss, List.map_cons, e1, eraseCRules_cons, e3, ih]
       rfl
 
+theorem SVarBlock.noC_erase (b : SVarBlock) : b.noC.erase = b.erase := by
+  simp only [SVarBlock.erase, SVarBlock.noC, List.map_map]
+  congr 1
+  · apply List.map_congr_left
+    intro p _
+    simp [SVarDecl.erase, SVarDecl.noC, strip_strip]
+  · cases b.last <;> simp [SVarDecl.erase, SVarDecl.noC, strip_strip]
+
+theorem noCVars_erase (tail : WGap) (l : List (SVar × WGap)) :
+    (noCVars tail l).2.map (·.1.erase) = eraseCRules (l.map (·.1.erase)) := by
+  induction l with
+  | nil => rfl
+  | cons p rest ih =>
+    obtain ⟨i, w⟩ := p
+    cases i with
+    | comment b =>
+      have e2 : (SVar.comment b).erase = .comment b := rfl
+      have e3 : eraseCRule (.comment b) = none := by simp [eraseCRule]
+      simp only [noCVars, List.map_cons, e2, eraseCRules_cons, e3, ih]
+      rfl
+    | unknown t =>
+      have e1 : (SVar.noC (.unknown t)).erase = .unknown (strip t) := rfl
+      have e2 : (SVar.unknown t).erase = .unknown t := rfl
+      have e3 : eraseCRule (.unknown t) = some (.unknown (strip t)) := by simp [eraseCRule]
+      simp only [noCVars, List.map_cons, e1, e2, eraseCRules_cons, e3, ih]
+      rfl
+    | variables kw g0 blk =>
+      have e1 : (SVar.noC (.variables kw g0 blk)).erase = (SVar.variables kw g0 blk).erase := by
+        simp [SVar.noC, SVar.erase, SVarBlock.noC_erase]
+      have e3 : eraseCRule (SVar.variables kw g0 blk).erase = some (SVar.variables kw g0 blk).erase := by
+        simp [SVar.erase, eraseCRule]
+      simp only [noCVars, List.map_cons, e1, eraseCRules_cons, e3, ih]
+      rfl
+
 /-- the sheet without comments denotes the abstract sheet without comments -/
 theorem SSheet.noC_erase (s : SSheet) : s.noC.erase = eraseCRules s.erase := by
-  simp only [SSheet.erase, SSheet.noC, eraseCRules_append, noCImps_erase, noCNss_erase, SRules.noC_erase]
-  congr 3
+  simp only [SSheet.erase, SSheet.noC, eraseCRules_append, noCImps_erase, noCNss_erase, noCVars_erase,
+    SRules.noC_erase]
+  congr 4
   cases s.charset <;> simp [eraseCRules, eraseCRule]
 
 end CssVerif.SheetSpec
